@@ -252,13 +252,13 @@ impl G<'_> {
     }
     fn sink(&mut self) -> SinkCfg {
         if self.p.sink_faults && self.r.chance(1, 3) {
-            if self.r.chance(1, 2) {
-                SinkCfg { fail_at: Some(1 + self.r.below(40) as u32), cap: 8192 }
-            } else {
-                SinkCfg { fail_at: None, cap: self.r.below(48) as u32 }
+            match self.r.below(3) {
+                0 => SinkCfg { fail_at: Some(1 + self.r.below(40) as u32), cap: 8192, elem_fail_at: None },
+                1 => SinkCfg { fail_at: None, cap: self.r.below(48) as u32, elem_fail_at: None },
+                _ => SinkCfg { fail_at: None, cap: 8192, elem_fail_at: Some(1 + self.r.below(12) as u32) },
             }
         } else {
-            SinkCfg { fail_at: None, cap: 8192 }
+            SinkCfg { fail_at: None, cap: 8192, elem_fail_at: None }
         }
     }
     fn src(&mut self, len: usize) -> SrcCfg {
@@ -432,6 +432,7 @@ impl G<'_> {
                         truncate: if faults && self.r.chance(1, 3) { Some(self.r.below(40) as u16) } else { None },
                         flip_bit: if faults && self.r.chance(1, 3) { Some(self.r.below(400) as u16) } else { None },
                         ser_fail_at: if faults && self.r.chance(1, 3) { Some(self.r.below(20) as u16) } else { None },
+                        de_fail_at: if faults && self.r.chance(1, 3) { Some(self.r.below(10) as u16) } else { None },
                     },
                 }
             }
